@@ -616,15 +616,17 @@ def mk_logdet(which, r):
             tot += term
         return tot
 
+    NBLOCKS = W.nblocks(TOTAL)
+
     def check(code: int) -> bool:
         """
-        pre: 0 <= code < TOTAL
+        pre: 0 <= code < NBLOCKS
         post: _
         """
-        _ = TOTAL
-        code, untraced = W.concrete(code)
+        _ = NBLOCKS
+        code, untraced = W.concrete(code)  # `code` numbers a block of W.BLOCK consecutive inputs (see vlib.w.nblocks)
         with untraced:
-            return body(code)
+            return W.run_block(code, TOTAL, body)
 
     def body(code):
         from cogent3.evolve import fast_distance as FD
